@@ -2,10 +2,14 @@
 use llgv::engine::{factory, matcher, GrammarSpec};
 fn main() {
     let a: Vec<String> = std::env::args().collect();
-    let schema: serde_json::Value = serde_json::from_str(&a[1]).unwrap();
     let v = llgv::walk::byte_vocab();
     let f = factory(&v);
-    let m = matcher(&f, &GrammarSpec::Json(schema));
+    let g = if let Some(path) = a[1].strip_prefix("lark:") {
+        GrammarSpec::Lark(std::fs::read_to_string(path).unwrap())
+    } else {
+        GrammarSpec::Json(serde_json::from_str(&a[1]).unwrap())
+    };
+    let m = matcher(&f, &g);
     if let Some(e) = m.get_error() {
         println!("compile error: {}", e.lines().next().unwrap_or(""));
         return;
